@@ -1,4 +1,5 @@
 import ClusterVerif.Lemmas.C02
+import ClusterVerif.Lemmas.C02Compose
 import ClusterVerif.Model.C02Source
 import ClusterVerif.Gen.C02
 
@@ -363,6 +364,293 @@ theorem untrusted_signer_through_trusted_relay (t : Trust) (r : Rep) (relay : Na
 example : let t : Trust := ⟨2, false, [0]⟩
     t.isTrusted 0 = true ∧ t.isTrusted 1 = false ∧
     (deliver t {} [1] ⟨0, [witA]⟩).viewAt 0 = some 9 ∧ (deliver ⟨2, false, [1]⟩ {} [1] ⟨0, [witA]⟩).viewAt 0 = none := by
+  decide
+
+/-! ## the composed replica: worker + set + remote deliveries (`CSt`, `cstep`) -/
+
+/-- **local order preserved**: in every run of a composed replica — any interleaving of LogPin/LogUnpin,
+    worker steps, commits failing at any write any number of times, and remote walks merged between any two
+    of them — the accepted operations are, in submission order, the operations of the committed batches
+    followed by the taken ones followed by the queued ones; the i-th delta of the replica's stream carries
+    exactly the elements of the i-th batch (puts in submission order, a delete dropping the earlier puts
+    of its key); stream priorities strictly increase, so every later local delta overrides every earlier
+    one wherever it is merged; and the stream's node ids are the replica's own, strictly increasing. Only a
+    failed `batchingState.Add/Rm` (the worker drops the item) is excluded. -/
+theorem local_order_preserved (cfg : Cfg) (me : Who) (evs : List CEv) (c : CSt) (rs : List Res)
+    (hr : crun cfg { me := me } evs = some (c, rs)) (hne : ∀ e ∈ evs, e ≠ CEv.loc (.take false)) :
+    cAccepted evs rs = c.done.flatten ++ c.batch ++ c.queue ∧
+    c.out.map (·.elems) = c.done.map elemsOf ∧ c.pend.elems = elemsOf c.batch ∧
+    (c.out.map (·.prio)).Pairwise (· < ·) ∧
+    ∃ cs : List Nat, c.out.map (·.id) = cs.map me.mkId ∧ cs.Pairwise (· < ·) := by
+  obtain ⟨hi, h⟩ := crun_stream cfg evs _ c rs (streamInv_init me) hne hr
+  have hme : c.me = me := (crun_sched_me cfg evs _ c rs hr)
+  obtain ⟨cs, e1, e2, _⟩ := hi.ids
+  exact ⟨by simpa using h.symm, hi.elems, hi.pendE, hi.prios, cs, by rw [← hme]; exact e1, e2⟩
+
+/-- a run with remote deliveries while a batch is open and in front of `Commit`, a refusal and two failed
+    commits meets the hypothesis; its stream holds one delta carrying the four accepted operations, at the priority raised by the walks -/
+abbrev exCRun : List CEv :=
+  [.loc (.log (.put 0 5)), .loc (.take true), .recv [⟨1, 1, [(0, 3)], []⟩], .loc (.log (.del 0)), .loc (.log (.put 1 2)),
+   .loc (.take true), .recv [⟨3, 2, [(2, 4)], []⟩], .loc (.commit .failElems), .loc (.take true), .loc (.commit .failBlock),
+   .loc (.log (.put 0 7)), .loc (.take true), .loc (.commit .ok), .recv []]
+
+example : ((crun ⟨2, 2⟩ { me := ⟨0, 2⟩ } exCRun).map fun p =>
+      (p.1.done == [[.put 0 5, .del 0, .put 1 2, .put 0 7]]) && (p.1.out.map (·.elems) == [[(1, 2), (0, 7)]]) &&
+      (p.1.out.map (·.prio) == [3]) && p.1.queue.isEmpty && p.1.batch.isEmpty) = some true ∧
+    exCRun.all (fun e => e != CEv.loc (.take false)) = true := by decide
+
+/-- **a remote merge commutes with the pending batch**: merging a remote walk — at any moment, also while
+    a batch is open or the worker stands in front of `Commit` — changes neither the queue, nor the pending
+    delta (its elements and the tombstones read by the deletes already taken), nor the worker's counters,
+    timer and phase, nor the stream. What it does change for the pending batch: the node the next `Commit`
+    builds gets priority `max height (priority of the walk's root) + 1` instead of `height + 1` (and the
+    remote heads as parents), and nothing else. -/
+theorem remote_merge_commutes_with_pending (cfg : Cfg) (c c' : CSt) (ds : List Delta) (r : Res)
+    (hs : cstep cfg c (.recv ds) = some (c', r)) :
+    c'.queue = c.queue ∧ c'.pend = c.pend ∧ c'.batch = c.batch ∧ c'.curSize = c.curSize ∧ c'.timer = c.timer ∧
+    c'.phase = c.phase ∧ c'.out = c.out ∧ c'.ctr = c.ctr ∧
+    c'.delta = { c.delta with prio := max c.height (maxPrio ds) + 1 } ∧
+    c'.rep = mergeAll ds c.rep := by
+  simp only [cstep, Option.some.injEq, Prod.mk.injEq] at hs
+  obtain ⟨rfl, _⟩ := hs
+  exact ⟨rfl, rfl, rfl, rfl, rfl, rfl, rfl, rfl, rfl, mergeWalk_fst ds _ _⟩
+
+/-- … hence the delta a successful commit appends to the stream after a remote merge is the one it would
+    have appended before, at the raised priority -/
+theorem commit_after_remote_merge (c : CSt) (ds : List Delta) (c1 : CSt) (r : Res) (cfg : Cfg)
+    (hs : cstep cfg c (.recv ds) = some (c1, r)) :
+    (c1.publish .ok).1.out = c.out ++ [{ c.delta with prio := max c.height (maxPrio ds) + 1 }] := by
+  obtain ⟨_, _, _, _, _, _, ho, _, hd, _⟩ := remote_merge_commutes_with_pending cfg c c1 ds r hs
+  simp only [CSt.publish, ho, hd]
+
+/-- what DOES depend on the moment of the merge: the tombstones of a delete are read when the worker takes
+    it. Replica 0 holds key 0 (own element); `del 0` is taken, THEN the remote put `(0 ↦ 3)` arrives, then
+    the batch commits: key 0 stays in the pinset with the remote content (the remote element is not
+    tombstoned — add wins). With the arrival before the take, key 0 is gone. -/
+theorem pending_delete_spares_later_remote_put :
+    let pre : List CEv := [.loc (.log (.put 0 5)), .loc (.take true), .loc (.commit .ok)]
+    let d : CEv := .recv [⟨1, 1, [(0, 3)], []⟩]
+    ((crun ⟨1, 9⟩ { me := ⟨0, 2⟩ } (pre ++ [.loc (.log (.del 0)), .loc (.take true), d, .loc (.commit .ok)])).map
+        (fun p => (p.1.rep.viewAt 0, p.1.out.map (·.tombs)))) = some (some 5, [[], [(0, 0)]]) ∧
+    ((crun ⟨1, 9⟩ { me := ⟨0, 2⟩ } (pre ++ [d, .loc (.log (.del 0)), .loc (.take true), .loc (.commit .ok)])).map
+        (fun p => (p.1.rep.viewAt 0, p.1.out.map (·.tombs)))) = some (none, [[], [(0, 1), (0, 0)]]) := by decide
+
+/-- **composed replicas converge (members)**: two composed replicas — every interleaving of their local
+    events and deliveries, batches of any shape, commits failing before anything is stored any number of
+    times — that have received each other's whole delta stream (and nothing else) hold the same keys.
+    Any joint run of a two-replica system projects to two such runs. Publishes that fail AFTER storing
+    part of the delta (element batch, head) are excluded by `CEv.clean`: the orphaned node is never
+    announced (K05d). -/
+theorem composed_members_converge_partial (cfgA cfgB : Cfg) (evsA evsB : List CEv) (a b : CSt) (rsA rsB : List Res)
+    (hA : crun cfgA { me := ⟨0, 2⟩ } evsA = some (a, rsA)) (hB : crun cfgB { me := ⟨1, 2⟩ } evsB = some (b, rsB))
+    (hcA : ∀ e ∈ evsA, CEv.clean e = true) (hcB : ∀ e ∈ evsB, CEv.clean e = true)
+    (hab : ∀ d, d ∈ a.got ↔ d ∈ b.out) (hba : ∀ d, d ∈ b.got ↔ d ∈ a.out) (k : Key) :
+    a.rep.member k = b.rep.member k := by
+  obtain ⟨ia, _, _⟩ := crun_sched cfgA evsA _ a rsA (schedInv_init _) hcA hA
+  obtain ⟨ib, _, _⟩ := crun_sched cfgB evsB _ b rsB (schedInv_init _) hcB hB
+  rw [ia.rep, ib.rep]
+  refine members_converge a.sched b.sched (sched_same_events ia ib hab hba) ?_ k
+  intro d hd
+  obtain ⟨d', hd', h⟩ := ia.sound _ hd
+  have : d' = d := by rcases h with h | h <;> cases h; rfl
+  subst this
+  rw [List.mem_append] at hd'
+  rcases hd' with h | h
+  · exact ia.prio _ h
+  · exact ib.prio _ ((hab _).1 h)
+
+/-- the full statement, without restricting how a publish may fail -/
+def composed_members_converge_full : Prop :=
+  ∀ (cfgA cfgB : Cfg) (evsA evsB : List CEv) (a b : CSt) (rsA rsB : List Res),
+    crun cfgA { me := ⟨0, 2⟩ } evsA = some (a, rsA) → crun cfgB { me := ⟨1, 2⟩ } evsB = some (b, rsB) →
+    (∀ d, d ∈ a.got ↔ d ∈ b.out) → (∀ d, d ∈ b.got ↔ d ∈ a.out) → ∀ k, a.rep.member k = b.rep.member k
+
+def witC : List CEv := [.loc (.log (.put 0 5)), .loc (.take true), .loc (.commit .failHeads)]
+def witCChk (p : CSt × List Res) : Bool := p.1.got.isEmpty && p.1.out.isEmpty && (p.1.rep.member 0 == true)
+
+/-- **false**: a publish of replica 0 that stores the delta and fails at the head write leaves an element
+    nobody else ever receives (the node is not a head, is not announced, and the next node does not link
+    to it) while LogPin had returned nil. Same root as K05d. -/
+theorem composed_members_converge_full_fails : ¬ composed_members_converge_full := by
+  intro h
+  have hc : (crun ⟨1, 9⟩ { me := ⟨0, 2⟩ } witC).map witCChk = some true := by decide
+  cases hr : crun ⟨1, 9⟩ { me := ⟨0, 2⟩ } witC with
+  | none => rw [hr] at hc; cases hc
+  | some p =>
+    obtain ⟨a, rs⟩ := p
+    rw [hr] at hc
+    simp only [Option.map_some, Option.some.injEq, witCChk, Bool.and_eq_true, List.isEmpty_iff, beq_iff_eq] at hc
+    obtain ⟨⟨hg, ho⟩, hm⟩ := hc
+    have := h ⟨1, 9⟩ ⟨1, 9⟩ witC [] a { me := ⟨1, 2⟩ } rs [] hr rfl
+      (by intro d; rw [hg]) (by intro d; rw [ho]) 0
+    rw [hm] at this
+    revert this
+    decide
+
+/-- **composed replicas converge (values)** under the hypotheses of `values_converge_partial` on the
+    joint history: (H1) no batch pins one CID twice, (H2) the greatest (priority, value) of a member key
+    belongs to a never-tombstoned element. -/
+theorem composed_values_converge_partial (cfgA cfgB : Cfg) (evsA evsB : List CEv) (a b : CSt) (rsA rsB : List Res)
+    (hA : crun cfgA { me := ⟨0, 2⟩ } evsA = some (a, rsA)) (hB : crun cfgB { me := ⟨1, 2⟩ } evsB = some (b, rsB))
+    (hcA : ∀ e ∈ evsA, CEv.clean e = true) (hcB : ∀ e ∈ evsB, CEv.clean e = true)
+    (hab : ∀ d, d ∈ a.got ↔ d ∈ b.out) (hba : ∀ d, d ∈ b.got ↔ d ∈ a.out)
+    (H1 : ∀ d ∈ a.out ++ b.out, nodupKeys d) (H2 : MaxSurvives a.sched) (k : Key) :
+    a.rep.viewAt k = b.rep.viewAt k := by
+  obtain ⟨ia, _, _⟩ := crun_sched cfgA evsA _ a rsA (schedInv_init _) hcA hA
+  obtain ⟨ib, _, _⟩ := crun_sched cfgB evsB _ b rsB (schedInv_init _) hcB hB
+  have hsrc : ∀ d, Ph.E d ∈ a.sched → d ∈ a.out ++ b.out := by
+    intro d hd
+    obtain ⟨d', hd', h⟩ := ia.sound _ hd
+    have : d' = d := by rcases h with h | h <;> cases h; rfl
+    subst this
+    rw [List.mem_append] at hd' ⊢
+    exact hd'.elim Or.inl (fun x => Or.inr ((hab _).1 x))
+  rw [ia.rep, ib.rep]
+  refine values_converge_partial a.sched b.sched (sched_same_events ia ib hab hba) ?_ (fun d hd => H1 d (hsrc d hd)) H2 k
+  intro d hd
+  have := hsrc d hd
+  rw [List.mem_append] at this
+  exact this.elim (ia.prio d) (ib.prio d)
+
+/-- two replicas with a batch each, a delete, crossing deliveries while batches are open: the hypotheses
+    are satisfiable and the pinsets agree -/
+abbrev exA : List CEv :=
+  [.loc (.log (.put 0 5)), .loc (.log (.put 1 6)), .loc (.take true), .loc (.take true), .loc (.commit .failBlock),
+   .loc (.log (.put 2 1)), .loc (.take true), .loc (.commit .ok), .recv [⟨1, 2, [(0, 3)], []⟩], .loc (.log (.del 1)),
+   .loc (.take true), .loc (.timerFire), .loc (.commit .ok)]
+abbrev exB : List CEv :=
+  [.loc (.log (.put 0 3)), .loc (.take true), .recv [⟨0, 1, [(0, 5), (1, 6), (2, 1)], []⟩], .loc (.commit .ok),
+   .recv [⟨2, 3, [], [(1, 0)]⟩]]
+
+example : (match crun ⟨2, 9⟩ { me := ⟨0, 2⟩ } exA, crun ⟨1, 9⟩ { me := ⟨1, 2⟩ } exB with
+    | some (a, _), some (b, _) =>
+      a.got.all b.out.contains && b.out.all a.got.contains && b.got.all a.out.contains && a.out.all b.got.contains &&
+      (a.rep.viewAt 0 == some 3) && (b.rep.viewAt 0 == some 3) && (a.rep.viewAt 1 == none) && (b.rep.viewAt 1 == none) &&
+      (a.rep.viewAt 2 == some 1) && (b.rep.viewAt 2 == some 1)
+    | _, _ => false) = true ∧ exA.all CEv.clean = true ∧ exB.all CEv.clean = true := by decide
+
+/-! ## batch boundaries (age mode) -/
+
+/-- **hooks determined by the boundaries**: in every run of the worker in which every commit succeeds and
+    nothing is merged from outside — any interleaving of submissions, takes, timer and commits — the
+    tracker calls, in order, and the replica are those of `runBatches` over the committed batches: a
+    function of the operations and of where the batch boundaries fell, and of nothing else. -/
+theorem hooks_determined_by_boundaries (cfg : Cfg) (me : Who) (evs : List CEv) (c : CSt) (rs : List Res)
+    (hr : crun cfg { me := me } evs = some (c, rs)) (hp : ∀ e ∈ evs, CEv.plain e = true) :
+    runBatches me c.done (({}, 0, 0), []) = ((c.rep, c.height, c.ctr), hooksOf rs) := by
+  obtain ⟨hi, hme⟩ := crun_bnd cfg evs _ c rs [] (bndInv_init me) hp hr
+  have := hi.st
+  rw [hme] at this
+  simpa using this
+
+/-- … so two runs with the same batches make the same tracker calls in the same order -/
+theorem hooks_same_boundaries (cfg1 cfg2 : Cfg) (me : Who) (e1 e2 : List CEv) (c1 c2 : CSt) (r1 r2 : List Res)
+    (h1 : crun cfg1 { me := me } e1 = some (c1, r1)) (h2 : crun cfg2 { me := me } e2 = some (c2, r2))
+    (p1 : ∀ e ∈ e1, CEv.plain e = true) (p2 : ∀ e ∈ e2, CEv.plain e = true) (hd : c1.done = c2.done) :
+    hooksOf r1 = hooksOf r2 ∧ c1.rep = c2.rep := by
+  have a := hooks_determined_by_boundaries cfg1 me e1 c1 r1 h1 p1
+  have b := hooks_determined_by_boundaries cfg2 me e2 c2 r2 h2 p2
+  rw [hd, b] at a
+  simp only [Prod.mk.injEq] at a
+  exact ⟨a.2.symm, a.1.1.symm⟩
+
+/-- the boundaries DO matter for the calls: pin, unpin, pin of one CID in one batch is one `Track`
+    (the delete drops the earlier put from the delta), in three batches it is `Track, Untrack, Track` -/
+example : (runBatches ⟨0, 1⟩ [[.put 0 5, .del 0, .put 0 7]] (({}, 0, 0), [])).2 = [.put 0 7] ∧
+    (runBatches ⟨0, 1⟩ [[.put 0 5], [.del 0], [.put 0 7]] (({}, 0, 0), [])).2 = [.put 0 5, .del 0, .put 0 7] ∧
+    (runBatches ⟨0, 1⟩ [[.put 0 5, .put 0 7]] (({}, 0, 0), [])).2 = [.put 0 5, .put 0 7] := by decide
+
+/-- **the pinset does not depend on the boundaries**: whatever the placement of the batch boundaries
+    (`bs` is any way of cutting the accepted operations into consecutive batches), the committed pinset
+    is the replay of the operations in submission order. What does depend on them: the tracker calls
+    (above) and the delta stream — inside one batch a delete removes the earlier puts of its CID from the
+    delta and two pins of one CID travel as two elements of one delta (K05b). -/
+theorem pinset_boundary_independent (me : Who) (hs : 0 < me.stride) (bs : List (List BOp)) (k : Key) :
+    (runBatches me bs (({}, 0, 0), [])).1.1.viewAt k = (replay bs.flatten []).get k := by
+  rw [replay_get]
+  refine runBatches_view me hs bs {} 0 0 [] _ ?_ (fun k => ?_) k
+  · refine ⟨fun k => Nat.zero_le _, HV_empty, ?_, ?_⟩ <;> intro t ht <;> cases ht
+  · simp [Rep.viewAt, Rep.member, View.get]
+
+theorem pinset_same_for_all_cuts (me : Who) (hs : 0 < me.stride) (bs bs' : List (List BOp))
+    (h : bs.flatten = bs'.flatten) (k : Key) :
+    (runBatches me bs (({}, 0, 0), [])).1.1.viewAt k = (runBatches me bs' (({}, 0, 0), [])).1.1.viewAt k := by
+  rw [pinset_boundary_independent me hs, pinset_boundary_independent me hs, h]
+
+/-! ## the validator gate in front of `recv` -/
+
+/-- **the view depends only on trusted authors**: in the composed replica with the topic validator in
+    front of `recv`, for every interleaving of local events, messages and Trust/Distrust calls, the whole
+    state (hence the pinset) is the one reached by the history from which every message whose signer was
+    not trusted WHEN IT ARRIVED has been removed … -/
+theorem view_depends_only_on_trusted (cfg : Cfg) (g : GSt) (evs : List GEv) :
+    grun cfg g evs = grun cfg g (passing g.t evs) := (grun_passing cfg evs g).symm
+
+/-- … and two histories that agree on what trusted signers authored — whatever else untrusted peers
+    signed, through whichever forwarders anything arrived — end in the same state. -/
+theorem same_trusted_history_same_view (cfg : Cfg) (g : GSt) (e1 e2 : List GEv)
+    (h : (passing g.t e1).map GEv.authored = (passing g.t e2).map GEv.authored) :
+    grun cfg g e1 = grun cfg g e2 := by
+  rw [view_depends_only_on_trusted cfg g e1, view_depends_only_on_trusted cfg g e2,
+    ← grun_authored cfg (passing g.t e1), ← grun_authored cfg (passing g.t e2), h]
+
+/-- a history with a Distrust between two messages of one signer, an untrusted signer behind a trusted
+    forwarder and a trusted one behind an untrusted forwarder: only the first and the last pass -/
+example : passing ⟨2, false, [0]⟩ [.msg 0 0 [witA], .distrust 0, .msg 0 0 [witB], .msg 0 1 [witT], .trust 0, .msg 1 0 [witB]] =
+    [.msg 0 0 [witA], .distrust 0, .trust 0, .msg 1 0 [witB]] := by decide
+
+/-! ## `Clean` and restart on the same datastore -/
+
+/-- **clean, then redelivery, converges**: a replica that processed any history `pre`, was cleaned
+    (`crdt.Clean` as it is: set, heads AND blockstore wiped) and then received the deltas `l2` — any order,
+    any repetition — holds the same pinset as a replica that never cleaned and received `l1`, whenever `l1`
+    and `l2` contain the same deltas; hypotheses as in `values_converge_partial` (priorities ≥ 1, (H1), (H2))
+    plus: a node id identifies its delta. -/
+theorem clean_then_redeliver_converges (pre l1 l2 : List Delta) (hset : ∀ d, d ∈ l1 ↔ d ∈ l2)
+    (hinj : ∀ d ∈ l1, ∀ d' ∈ l1, d.id = d'.id → d = d')
+    (hprio : ∀ d ∈ l1, 1 ≤ d.prio) (H1 : ∀ d ∈ l1, nodupKeys d) (H2 : MaxSurvives (phasesOf l1)) (k : Key) :
+    (handleAll l2 (handleAll pre {}).clean).rep.viewAt k = (handleAll l1 {}).rep.viewAt k := by
+  have hinj2 : ∀ d ∈ l2, ∀ d' ∈ l2, d.id = d'.id → d = d' :=
+    fun d hd d' hd' => hinj d ((hset d).2 hd) d' ((hset d').2 hd')
+  obtain ⟨m1, e1, s1⟩ := handleAll_fresh l1 hinj
+  obtain ⟨m2, e2, s2⟩ := handleAll_fresh l2 hinj2
+  show (handleAll l2 {}).rep.viewAt k = _
+  rw [e1, e2, mergeAll_eq_runPh, mergeAll_eq_runPh]
+  have h12 : ∀ d, d ∈ m1 ↔ d ∈ m2 := fun d => by rw [s1, s2, hset]
+  have hc : ∀ ph, ph ∈ phasesOf l1 ↔ ph ∈ phasesOf m1 := phasesOf_congr (fun d => (s1 d).symm)
+  exact (values_converge_partial (phasesOf m1) (phasesOf m2) (phasesOf_congr h12)
+    (fun d hd => hprio d ((s1 d).1 ((mem_phasesOf_E m1 d).1 hd)))
+    (fun d hd => H1 d ((s1 d).1 ((mem_phasesOf_E m1 d).1 hd))) (MaxSurvives_congr hc H2) k).symm
+
+/-- the members version needs neither (H1) nor (H2) -/
+theorem clean_then_redeliver_members (pre l1 l2 : List Delta) (hset : ∀ d, d ∈ l1 ↔ d ∈ l2)
+    (hinj : ∀ d ∈ l1, ∀ d' ∈ l1, d.id = d'.id → d = d') (hprio : ∀ d ∈ l1, 1 ≤ d.prio) (k : Key) :
+    (handleAll l2 (handleAll pre {}).clean).rep.member k = (handleAll l1 {}).rep.member k := by
+  have hinj2 : ∀ d ∈ l2, ∀ d' ∈ l2, d.id = d'.id → d = d' :=
+    fun d hd d' hd' => hinj d ((hset d).2 hd) d' ((hset d').2 hd')
+  obtain ⟨m1, e1, s1⟩ := handleAll_fresh l1 hinj
+  obtain ⟨m2, e2, s2⟩ := handleAll_fresh l2 hinj2
+  show (handleAll l2 {}).rep.member k = _
+  rw [e1, e2]
+  exact (members_converge_merge m1 m2 (fun d => by rw [s1, s2, hset]) (fun d hd => hprio d ((s1 d).1 hd)) k).symm
+
+example : (handleAll exHist.reverse (handleAll [witA, witB] {}).clean).rep.viewAt 0 = (handleAll exHist {}).rep.viewAt 0 ∧
+    (handleAll exHist {}).rep.viewAt 0 = some 2 := by decide
+
+/-- the alternative `Clean` that keeps the DAG nodes: the statement above with `cleanKeepBlocks` -/
+def clean_keeping_blocks_converges : Prop :=
+  ∀ (pre l1 l2 : List Delta), (∀ d, d ∈ l1 ↔ d ∈ l2) → (∀ d ∈ l1, ∀ d' ∈ l1, d.id = d'.id → d = d') →
+    (∀ d ∈ l1, 1 ≤ d.prio) → ∀ k,
+    (handleAll l2 (handleAll pre {}).cleanKeepBlocks).rep.member k = (handleAll l1 {}).rep.member k
+
+/-- **refuted**: with the blocks kept, the old deltas count as processed and are never merged again: a
+    replica that held key 0, was cleaned and received everything again (plus a new delta) holds only
+    what was published after the clean. -/
+theorem clean_keeping_blocks_fails : ¬ clean_keeping_blocks_converges := by
+  intro h
+  have := h [witA] [witA, ⟨5, 2, [(1, 4)], []⟩] [⟨5, 2, [(1, 4)], []⟩, witA] (by intro d; simp [or_comm])
+    (by decide) (by decide) 0
+  revert this
   decide
 
 /-! ### The anchored functions still read as the model was transcribed (regenerated from /repo on every run) -/
